@@ -10,6 +10,7 @@ import EupsModel.Lemmas.TableWritten
 import EupsModel.Lemmas.TableDeclOpts
 import EupsModel.Lemmas.TableGrammar
 import EupsModel.Lemmas.TableLegacyDenote
+import EupsModel.Lemmas.TableLegacyOldDenote
 /-! C11 — table files mean what they say.  Property theorems only: the specification side is in
 `Spec/C11.lean`, the models in `Model/{Cond,CondPinned,TableParse}.lean`, the lemmas in `Lemmas/Cond*.lean`. -/
 namespace EupsModel.C11
@@ -560,6 +561,35 @@ example : lDenote none ⟨Str.ofString "Linux64", []⟩ [.cmd sampleCmd] sampleL
       [Str.ofString "PATH", Str.ofString "${PRODUCT_DIR}/my bin", [59]], .append true⟩, actA, actB] ∧
     lDenote none ⟨Str.ofString "SunOS", []⟩ [.cmd sampleCmd] sampleLGroups = [⟨Str.ofString "envPrepend",
       [Str.ofString "PATH", Str.ofString "${PRODUCT_DIR}/my bin", [59]], .append true⟩] := by decide +kernel
+
+/-- **C11_legacy_denotes_old (`Group:` … `End:`).**  The same for old-style tables — an optional header
+`File = Table` / `Product = …`, command / blank / comment lines, then groups `Group:` / one or more `Flavor = f` /
+optionally `Qualifiers = "…"` / `Common:` / optionally `Action = setup` / command, blank and comment lines / `End:` /
+further such lines — whose flavors are plain words other than `ANY`: `Table.actions` gives the lines outside the
+groups always and a group's lines exactly when the flavor is one of the group's flavors, in the order written. -/
+theorem C11_legacy_denotes_old (env : Env) (hfl : flavorOK env.flavor = true) (pdir : Option Str) (h : Option OHeader)
+    (pre : List GLine) (gs : List OLGroup) (hh : ∀ x, h = some x → x.ok = true) (hpre : pre.all (GLine.ok pdir) = true)
+    (hgs : gs.all (OLGroup.ok pdir) = true) (nl : Bool) :
+    tableActions repaired pdir env (olText h pre gs nl) = .ok (olDenote pdir env pre gs) :=
+  old_legacy_denotes env hfl pdir h pre gs hh hpre hgs nl
+
+def sampleOLGroups : List OLGroup :=
+  [ { group := ⟨⟨[], []⟩, Str.ofString "Group:", []⟩,
+      f := ⟨⟨[32, 32], []⟩, Str.ofString "Flavor", [32], [32], Str.ofString "Linux", []⟩,
+      more := [⟨⟨[32, 32], []⟩, Str.ofString "FLAVOR", [], [], Str.ofString "Linux64", []⟩],
+      qual := some ⟨⟨[32, 32], []⟩, Str.ofString "Qualifiers", [32], [32], Str.ofString "\"\"", []⟩,
+      common := ⟨⟨[], []⟩, Str.ofString "COMMON:", [32]⟩,
+      action := some ⟨⟨[32, 32], []⟩, Str.ofString "Action", [32], [32], Str.ofString "Setup", []⟩,
+      body := [.cmd cmdSetA, .note (Str.ofString "  # two")],
+      end_ := ⟨⟨[], []⟩, Str.ofString "End:", []⟩,
+      after := [.cmd cmdSetB] } ]
+
+example : olText (some oldHeader) [.cmd sampleCmd] sampleOLGroups true = Str.ofString
+    "FILE=table\nProduct = foo\n\tENVAPPEND (PATH, \"${PRODUCT_DIR}/my bin\", ;) ;  # c\nGroup:\n  Flavor = Linux\n  FLAVOR=Linux64\n  Qualifiers = \"\"\nCOMMON: \n  Action = Setup\n\tenvSet(A, 1)\n  # two\nEnd:\n      SETENV (B, \"x y\");  # comment\n" := by
+  decide +kernel
+example : sampleOLGroups.all (OLGroup.ok none) = true := by decide +kernel
+example : olDenote none ⟨Str.ofString "Linux64", []⟩ [] sampleOLGroups = [actA, actB] ∧
+    olDenote none ⟨Str.ofString "Darwin", []⟩ [] sampleOLGroups = [actB] := by decide +kernel
 
 /-! ## `declareOptions` (what `eups declare` reads from the table) -/
 
